@@ -766,16 +766,17 @@ fn value_checks(rec: &mut Rec, map: &Beatmap, diff: &rosu_pp::Difficulty, label:
         state.n50 = 2_000;
         state.misses = 1_000;
         // the Difficulty handed to the gradual performance calculator still carries a passed_objects value from an earlier use
-        // (one less than the number of steps); whether a calculator honours or ignores it, the steps up to that value are the
-        // prefixes of the same play, so only those are compared
-        let stale = (total as u32).saturating_sub(1).max(1);
+        // (half the number of steps): some calculators honour it (fewer steps), others ignore it (all steps)
+        let stale = ((total / 2) as u32).max(1);
         let mut gp = GradualPerformance::new(diff.clone().passed_objects(stale), map);
+        // ... a calculator that honours the stale value announces fewer steps; every step it DOES announce is a prefix of the play
+        let announced = gp.len();
         let (mut at, mut pat) = (0usize, 0usize);
         for &i in &idxs {
             let gv = g.nth(i - at).map(|a| dbg_attrs(&a));
             at = i + 1;
             let ov = dbg_attrs(&diff.clone().passed_objects(i as u32 + 1).calculate(map));
-            let (pv, opv) = if (i as u32) < stale {
+            let (pv, opv) = if i < announced {
                 let pv = gp.nth(state.clone(), i - pat).map(|a| dbg_perf(&a));
                 pat = i + 1;
                 (pv, dbg_perf(&Performance::new(map).difficulty(diff.clone().passed_objects(i as u32 + 1)).state(state.clone()).calculate()))
